@@ -863,7 +863,12 @@ fn run_grid(ctx: &Ctx, env: &Env, insts: &[Instance], base_id: u32, max_depth: u
             let mut h = node.hist.clone();
             h.push(*op);
             let count_from = h.len() - 1;
-            match catch(|| execute(env, inst, &h, count_from, true, l)) {
+            let t0 = Instant::now();
+            let res = catch(|| execute(env, inst, &h, count_from, true, l));
+            if t0.elapsed() > Duration::from_secs(5) {
+                eprintln!("[C15] slow transition ({:.1}s): cfg {} history {:?}", t0.elapsed().as_secs_f64(), inst.cfg.to_json(), h);
+            }
+            match res {
                 Ok(out) => {
                     let key = (node.inst, out.key);
                     diff.check(key, out.digest, || json!({"cfg": inst.cfg.to_json(), "history": h.iter().map(|o| op_json(o, env)).collect::<Vec<_>>()}));
